@@ -296,6 +296,10 @@ func (r *Runner) stop(ctx context.Context) bool {
 	if !r.handlingTrap && (r.exit.returning || r.exit.exiting) {
 		return true
 	}
+	if r.breakEnclosing > 0 || r.contnEnclosing > 0 {
+		// A break or continue is unwinding to its loop.
+		return true
+	}
 	if err := ctx.Err(); err != nil {
 		r.exit.fatal(err)
 		return true
@@ -1117,7 +1121,11 @@ func (r *Runner) redir(ctx context.Context, rd *syntax.Redirect) (io.Closer, err
 func (r *Runner) loopStmtsBroken(ctx context.Context, stmts []*syntax.Stmt) bool {
 	oldInLoop := r.inLoop
 	r.inLoop = true
-	defer func() { r.inLoop = oldInLoop }()
+	r.loopDepth++
+	defer func() {
+		r.inLoop = oldInLoop
+		r.loopDepth--
+	}()
 	for _, stmt := range stmts {
 		r.stmt(ctx, stmt)
 		if r.contnEnclosing > 0 {
